@@ -298,6 +298,13 @@ theorem C06_counterexample : ¬ Statement_C06 := by
   revert this
   decide
 
+/-- the same fault on an EMPTIED store: count 2 and no item at all. (On the real code this is the state in
+which a new transaction's `Find` indexes the empty root node's slot array at -1 and panics:
+finding C06-F3; the directed case `count-kept-empty-root` replays it.) -/
+theorem C06_counterexample_count_kept_empty_root :
+    ((runEv true (initial []) histCount).ws 0).pc = .done .errInjected ∧
+    (runEv true (initial []) histCount).count = 2 ∧ (runEv true (initial []) histCount).db = [] := by decide
+
 /-- first-root race: the store ends with the winner's count and the loser's uncommitted item -/
 theorem C06_counterexample_first_root :
     let s0 : State := initial []
